@@ -121,6 +121,23 @@ func c19Relay(c *Ctx, p *Prog, cl *ssa.Function, ob *Obligation) {
 			ob.Violate("copier %s does not forward with exactly one io.Copy (a hand-written copy loop must also forward bytes that arrive together with an error; only io.Copy is trusted to)", p.FuncKey(fn))
 			return
 		}
+		if p.CalleeID(copies[0].Common()) == "io.CopyBuffer" {
+			// io.CopyBuffer is io.Copy with a caller-provided staging buffer: that buffer must be the
+			// copier's own (allocated in this goroutine), or the two directions overwrite each other's data
+			own := false
+			switch x := unspill(copies[0].Common().Args[2]).(type) {
+			case *ssa.MakeSlice:
+				own = x.Parent() == fn
+			case *ssa.Slice:
+				if al, ok := x.X.(*ssa.Alloc); ok {
+					own = al.Parent() == fn
+				}
+			}
+			if !own {
+				ob.Violate("copier %s forwards through a staging buffer it did not allocate itself (io.CopyBuffer at %s): a buffer shared by both directions is a data race that corrupts relayed bytes", p.FuncKey(fn), p.InstrPos(copies[0]))
+				return
+			}
+		}
 		dst := cellValue(p, stripConv(copies[0].Common().Args[0]))
 		src := cellValue(p, stripConv(copies[0].Common().Args[1]))
 		switch {
